@@ -125,6 +125,7 @@ func jaccard(a, b []string) float64 {
 func resolveRenames(fns []*ssa.Function, refFile string) {
 	funcAlias = map[*ssa.Function]string{}
 	Renamed = map[string]string{}
+	NewFuncs = map[string]bool{}
 	b, err := os.ReadFile(refFile)
 	if err != nil {
 		return
@@ -191,6 +192,12 @@ func resolveRenames(fns []*ssa.Function, refFile string) {
 			taken[best.key] = true
 			funcAlias[cur[best.key]] = m
 			Renamed[m] = best.key
+		}
+	}
+	NewFuncs = map[string]bool{}
+	for _, a := range added {
+		if !taken[a] {
+			NewFuncs[a] = true
 		}
 	}
 	// report under the reference name → current name
